@@ -54,6 +54,7 @@ type Config struct {
 	Validators     int      `json:"validators"`     // bonded validators v1..vM
 	Balance        int64    `json:"balance"`        // initial coins per account
 	ValTokens      int64    `json:"valTokens"`      // self-bonded tokens per validator
+	MaxValidators  int      `json:"maxValidators"`  // staking param (0: the default, 100); validators beyond it start unbonded
 	BlockReward    int64    `json:"blockReward"`    // node param
 	Baseline       int64    `json:"baseline"`       // node param
 	APY            string   `json:"apy"`            // node param
@@ -231,7 +232,7 @@ func (c *Chain) genesisState() ([]byte, error) {
 	var validators []stakingtypes.Validator
 	var delegations []stakingtypes.Delegation
 	var tmVals []*tmtypes.Validator
-	bonded := sdk.ZeroInt()
+	bonded, notBonded := sdk.ZeroInt(), sdk.ZeroInt()
 	for i := 0; i < cfg.Validators; i++ {
 		owner := c.Vals[i].Owner
 		cons := ed25519.GenPrivKeyFromSecret([]byte(fmt.Sprintf("valcons-%d-%d", cfg.WorldSeed, i)))
@@ -241,8 +242,13 @@ func (c *Chain) genesisState() ([]byte, error) {
 		}
 		valAddr := sdk.ValAddress(owner.Addr)
 		tokens := sdk.NewInt(cfg.ValTokens)
+		status := stakingtypes.Bonded
+		if cfg.MaxValidators > 0 && i >= cfg.MaxValidators {
+			// outside the active set (all have the same power: the lower operator addresses are in)
+			status = stakingtypes.Unbonded
+		}
 		v := stakingtypes.Validator{
-			OperatorAddress: valAddr.String(), ConsensusPubkey: pkAny, Status: stakingtypes.Bonded,
+			OperatorAddress: valAddr.String(), ConsensusPubkey: pkAny, Status: status,
 			Tokens: tokens, DelegatorShares: sdk.NewDecFromInt(tokens), Description: stakingtypes.Description{Moniker: fmt.Sprintf("v%d", i+1)},
 			UnbondingTime: time.Unix(0, 0).UTC(), Commission: stakingtypes.NewCommission(sdk.ZeroDec(), sdk.ZeroDec(), sdk.ZeroDec()),
 			MinSelfDelegation: sdk.ZeroInt(),
@@ -250,6 +256,10 @@ func (c *Chain) genesisState() ([]byte, error) {
 		validators = append(validators, v)
 		delegations = append(delegations, stakingtypes.NewDelegation(owner.Addr, valAddr, sdk.NewDecFromInt(tokens)))
 		genAccs = append(genAccs, authtypes.NewBaseAccount(owner.Addr, owner.Priv.PubKey(), 0, 0))
+		if status != stakingtypes.Bonded {
+			notBonded = notBonded.Add(tokens)
+			continue
+		}
 		bonded = bonded.Add(tokens)
 		tmpk, err := cryptocodec.ToTmPubKeyInterface(cons.PubKey())
 		if err != nil {
@@ -261,9 +271,16 @@ func (c *Chain) genesisState() ([]byte, error) {
 		balances = append(balances, banktypes.Balance{Address: authtypes.NewModuleAddress(stakingtypes.BondedPoolName).String(), Coins: sdk.NewCoins(sdk.NewCoin(Denom, bonded))})
 		total = total.Add(sdk.NewCoin(Denom, bonded))
 	}
+	if notBonded.IsPositive() {
+		balances = append(balances, banktypes.Balance{Address: authtypes.NewModuleAddress(stakingtypes.NotBondedPoolName).String(), Coins: sdk.NewCoins(sdk.NewCoin(Denom, notBonded))})
+		total = total.Add(sdk.NewCoin(Denom, notBonded))
+	}
 	gs[authtypes.ModuleName] = enc.Marshaler.MustMarshalJSON(authtypes.NewGenesisState(authtypes.DefaultParams(), genAccs))
 	sp := stakingtypes.DefaultParams()
 	sp.BondDenom = Denom
+	if cfg.MaxValidators > 0 {
+		sp.MaxValidators = uint32(cfg.MaxValidators)
+	}
 	gs[stakingtypes.ModuleName] = enc.Marshaler.MustMarshalJSON(stakingtypes.NewGenesisState(sp, validators, delegations))
 	gs[banktypes.ModuleName] = enc.Marshaler.MustMarshalJSON(banktypes.NewGenesisState(banktypes.DefaultGenesisState().Params, balances, total, []banktypes.Metadata{}))
 	// x/mint: no inflation, so that in ABCI mode the supply only moves by the storage reward (x/mint is not a storage module)
@@ -508,7 +525,15 @@ func (c *Chain) Deliver(msg sdk.Msg) TxResult {
 // EndAndBegin finishes the current block (real end blockers in app.go's order) and
 // begins the next one (real begin blockers of the custom modules). Returns "ok",
 // "PANIC" or "HANG" plus the phase in which it happened.
+func (c *Chain) maxVals() int {
+	if c.Cfg.MaxValidators > 0 {
+		return c.Cfg.MaxValidators
+	}
+	return 100
+}
+
 func (c *Chain) EndAndBegin(withStaking bool) (string, string, string) {
+	withStaking = withStaking || c.Cfg.Validators > 0 // the validator set is brought up to date at every end-block
 	if c.Halted != "" {
 		return "PANIC", "halted", c.Halted
 	}
@@ -607,7 +632,7 @@ func (c *Chain) SpecConfig() map[string]interface{} {
 		"vstorThreshold": c.Cfg.VstorThreshold, "shareNum": sn, "shareDen": sd,
 		"offlineTrigger": c.Cfg.OfflineTrigger, "salt": c.Cfg.Salt, "seedMode": c.Cfg.SeedMode,
 		"fishmen": c.Cfg.Fishmen, "maxPenalty": c.Cfg.MaxPenalty,
-		"rewardAge": age, "toNextAge": toNext,
+		"rewardAge": age, "toNextAge": toNext, "maxVals": c.maxVals(),
 	}
 }
 
@@ -659,7 +684,13 @@ func NewABCI(cfg Config) (*Chain, error) {
 	return c, nil
 }
 
-func (c *Chain) signerOf(msg sdk.Msg) *Account {
+func (c *Chain) signerOf(msg sdk.Msg) (acc *Account) {
+	// a message whose creator is not an address has no signer (GetSigners panics): it cannot be put into a transaction
+	defer func() {
+		if recover() != nil {
+			acc = nil
+		}
+	}()
 	signers := msg.GetSigners()
 	if len(signers) == 0 {
 		return nil
